@@ -105,8 +105,9 @@ type ContractFile struct {
 	Ghost       []GhostField
 	Immutable   []string
 	Stable      []string
-	NonNilElems map[string]bool // map-typed fields whose values are never nil
-	NonNil      map[string]bool // component names F.T.f whose value is never nil once the object is constructed
+	Writers     map[string][]string // component -> the only functions allowed to write it
+	NonNilElems map[string]bool     // map-typed fields whose values are never nil
+	NonNil      map[string]bool     // component names F.T.f whose value is never nil once the object is constructed
 	Lines       int
 }
 type GhostField struct{ Type, Field, Sort string }
@@ -116,7 +117,7 @@ var reLoop = regexp.MustCompile(`^loop\s+(\d+)\s+(invariant|decreases|modifies|h
 var reGhostVar = regexp.MustCompile(`^ghost\s+var\s+([A-Za-z_][A-Za-z0-9_]*)\s+(int|bool|\[int\]int|\[int\]bool)\s*=\s*(.*)$`)
 var reAtCall = regexp.MustCompile(`^at\s+call\??\s+([A-Za-z0-9_./()*]+)#(\d+)\s+ghost\s+([A-Za-z_][A-Za-z0-9_.\[\]+\-* ()]*?)\s*:=\s*(.*)$`)
 var reAtReturn = regexp.MustCompile(`^at\s+return\s+ghost\s+([A-Za-z_][A-Za-z0-9_.\[\]+\-* ()]*?)\s*:=\s*(.*)$`)
-var reAtCallHint = regexp.MustCompile(`^at\s+call\s+([A-Za-z0-9_./()*]+)#(\d+)\s+(?:hint|assume)(\[[A-Za-z0-9,@]+\])?\s+(.*)$`)
+var reAtCallHint = regexp.MustCompile(`^at\s+call\??\s+([A-Za-z0-9_./()*]+)#(\d+)\s+(?:hint|assume)(\[[A-Za-z0-9,@]+\])?\s+(.*)$`)
 var rePure = regexp.MustCompile(`^(?:pure|arith)\s+([A-Za-z_][A-Za-z0-9_]*)\s*\(([^)]*)\)\s*:\s*([A-Za-z0-9_\[\]\*\.]+)\s*=\s*(.*)$`)
 var reGhost = regexp.MustCompile(`^ghost\s+field\s+([A-Za-z_][A-Za-z0-9_]*)\.([A-Za-z_][A-Za-z0-9_]*)\s*:\s*(.*)$`)
 
@@ -126,7 +127,7 @@ func parseContractFile(path string) (*ContractFile, error) {
 		return nil, err
 	}
 	defer f.Close()
-	cf := &ContractFile{Funcs: map[string]*Contract{}, Pures: map[string]*PureDef{}, Ariths: map[string]*PureDef{}, NonNil: map[string]bool{}, NonNilElems: map[string]bool{}}
+	cf := &ContractFile{Funcs: map[string]*Contract{}, Pures: map[string]*PureDef{}, Ariths: map[string]*PureDef{}, NonNil: map[string]bool{}, NonNilElems: map[string]bool{}, Writers: map[string][]string{}}
 	sc := bufio.NewScanner(f)
 	sc.Buffer(make([]byte, 1<<20), 1<<20)
 	var logical []struct {
@@ -207,6 +208,20 @@ func parseContractFile(path string) (*ContractFile, error) {
 			}
 			cf.Ghost = append(cf.Ghost, GhostField{m[1], m[2], strings.TrimSpace(m[3])})
 			cur = nil
+		case strings.HasPrefix(t, "writers "):
+			// writers Type.field: f1, f2, ...
+			rest := t[len("writers "):]
+			i := strings.Index(rest, ":")
+			if i < 0 {
+				return nil, fail(fmt.Errorf("writers Type.field: functions"))
+			}
+			comp := "F." + strings.TrimSpace(rest[:i])
+			for _, f := range strings.Split(rest[i+1:], ",") {
+				if f = strings.TrimSpace(f); f != "" {
+					cf.Writers[comp] = append(cf.Writers[comp], f)
+				}
+			}
+			cur = nil
 		case strings.HasPrefix(t, "nonnil-elems "):
 			for _, f := range strings.Split(t[len("nonnil-elems "):], ",") {
 				if f = strings.TrimSpace(f); f != "" {
@@ -249,7 +264,7 @@ func parseContractFile(path string) (*ContractFile, error) {
 				if err != nil {
 					return nil, fail(err)
 				}
-				cur.AtCalls = append(cur.AtCalls, AtCall{Callee: m[1], N: n, Expr: e, Line: l.line, Hint: true, Props: parseProps(m[3]), Assume: strings.Contains(t[:strings.Index(t, "#")+12], " assume"), Text: m[4]})
+				cur.AtCalls = append(cur.AtCalls, AtCall{Callee: m[1], N: n, Expr: e, Line: l.line, Hint: true, Optional: strings.HasPrefix(t, "at call?"), Props: parseProps(m[3]), Assume: strings.Contains(t[:strings.Index(t, "#")+12], " assume"), Text: m[4]})
 				continue
 			}
 			if m := reAtCall.FindStringSubmatch(t); m != nil {
